@@ -64,6 +64,30 @@ def shrink(prog, fails):
     return best
 
 
+def float_tie(prog, i, impl_decision, model_decisions):
+    """the exact model and the float implementation take different decisions at op i: is the request on a feasibility boundary
+    that float rounding of the history so far has moved by less than one part in a million?  Decided by re-running both with the
+    requested quantity of op i scaled by 1 - 1e-6 and by 1 + 1e-6: a tie iff both agree on both neighbours and the two neighbours
+    are decided differently (the boundary lies between them).  Ties are counted in the evidence and not judged; directed
+    exactly-on-boundary cases (short decimals, fresh containers: C03.boundary_cases) are not subject to this."""
+    import copy
+    from decimal import Decimal
+    op = prog['ops'][i]
+    if not (isinstance(op.get('q'), dict) and 'v' in op['q']):
+        return False
+    ps = []
+    for f in ('0.999999', '1.000001'):
+        p2 = copy.deepcopy(dict(prog, ops=prog['ops'][:i + 1]))
+        p2['ops'][i]['q']['v'] = format(Decimal(str(p2['ops'][i]['q']['v'])) * Decimal(f), 'f')
+        ps.append(p2)
+    try:
+        a = [bool(impl_decision(p, i)) for p in ps]
+        m = model_decisions(ps, i)
+    except Exception:  # noqa
+        return False
+    return None not in m and a == [bool(x) for x in m] and a[0] != a[1]
+
+
 def run(chk, gens, oracle, tag, rule, nontrivial_key, model_fn='showRun', imports=IMPORTS, atol=1e-8, rtol=2e-8,
         corpus=(), extra_cov=None):
     """gens: list of Gen objects already run on the implementation (g.prog(), g.obs, g.impl).
@@ -71,7 +95,7 @@ def run(chk, gens, oracle, tag, rule, nontrivial_key, model_fn='showRun', import
     t0 = time.time()
     progs = [g.prog() for g in gens]
     mobs, errs = model_obs(tag, progs, model_fn, imports)
-    ndis = 0
+    ndis = ties = 0
     nontrivial = set()
     stats = {}
     samples = []
@@ -103,6 +127,11 @@ def run(chk, gens, oracle, tag, rule, nontrivial_key, model_fn='showRun', import
             continue
         k = tol_scale(prog)
         d = dsl.compare(g.obs, m, atol=atol * k, rtol=rtol)
+        if d and d[0][1].startswith('decision:') and not any(str(k).startswith('boundary:') for k in g.stats) and float_tie(
+                prog, d[0][0], lambda p, i: rerun(p)[0][i]['ok'],
+                lambda ps, i: [x and x[i]['ok'] for x in model_obs(tag + 'tie', ps, model_fn, imports)[0]]):
+            ties += 1
+            d = []
         if d:
             ndis += 1
             if not fails and ndis <= 3:
@@ -121,7 +150,7 @@ def run(chk, gens, oracle, tag, rule, nontrivial_key, model_fn='showRun', import
         'distinct_nontrivial': len(nontrivial), 'rule': rule, 'disagreements_checked': ndis,
         'oracle_failures': nfail, 'samples': samples, 'generator_distribution': stats,
         'history_lengths': {'min': min(len(p['ops']) for p in progs), 'max': max(len(p['ops']) for p in progs)},
-        'correspondence_s': round(time.time() - t0, 1),
+        'correspondence_s': round(time.time() - t0, 1), 'float_ties_not_judged': ties,
     }
     if extra_cov:
         cov.update(extra_cov)
